@@ -543,6 +543,17 @@ def run_instance(inst, tier='quick', seed=0, replay_dir=None, prefix=None, first
         mv = {n: k for n, k in c.inputs.items()}
         r = solve.check_sat(q, timeout_s=timeout, model_vars=mv)
         rep['solver_time'] += r.time
+        if r.status != 'unsat':
+            # the directed slice drops hypotheses over derived variables: retry with the full connected component
+            q2, rel2 = solve.build_query(c, goal, hyps=hyps, hints=hints, path_len=path_len, full=True)
+            if len(q2) != len(q):
+                r2 = solve.check_sat(q2, timeout_s=timeout, model_vars=mv)
+                rep['solver_time'] += r2.time
+                if r2.status != 'unknown' or r.status == 'unknown':
+                    r, q, rel = r2, q2, rel2
+                elif r.status == 'sat':
+                    # weaker query satisfiable, full query undecided: undecided
+                    r, q, rel = r2, q2, rel2
         rep['backends'][r.backend] = rep['backends'].get(r.backend, 0) + 1
         status = {'unsat': 'discharged', 'sat': 'failed', 'unknown': 'undecided'}[r.status]
         seen_q[sig] = status
